@@ -55,6 +55,9 @@ func runOtherWorld(t *testing.T, k *Kernel, p *Plan, rec *RunRecord, keepLog boo
 	case "gen":
 		runGenWorld(t, k, p, rec)
 		return true
+	case "xl":
+		runXLWorld(t, k, p, rec)
+		return true
 	case "cred":
 		runCredWorld(t, k, p, rec)
 		return true
